@@ -6,6 +6,7 @@ from gvsim import model as M
 from gvsim import views as V
 from gvsim import worlds as W
 from gvsim.kernel import stream
+from gvsim.props import common
 from gvsim.lib import BUILTIN_TYPES, COLORS, HEADINGS, blocks_vision, mk_obj, mk_state, sha, world_of, wkey
 from gvsim.sim import Raised, sut
 
@@ -37,7 +38,7 @@ def generate(seed, run, tier):
     r = stream(seed, PROP, run, 'gen')
     big = tier == 'thorough'
     name = NAMES[run % 3] if r.random() < 0.7 else r.choice(NAMES)
-    area = V.gen_area(r, name, 9 if big else 7)
+    area = V.gen_area(r, name, 9 if big else 7, behind_ok=True)
     world = V.gen_view_world(r, 8 if big else 7, 8 if big else 7, occluders=True)
     if r.random() < 0.12:
         # boundary condition: the view covers the grid exactly for one pose
@@ -73,9 +74,11 @@ def generate(seed, run, tier):
             vis['absolute_counts'] = True
     elif name == 'partially_occluded' and r.random() < 0.2:
         vis = {'name': 'partially_occluded'}
-    return {'property': PROP, 'seed': seed, 'run': run, 'tier': tier, 'debug': r.random() < 0.5, 'world': world,
+    rec = {'property': PROP, 'seed': seed, 'run': run, 'tier': tier, 'debug': r.random() < 0.5, 'world': world,
             'obs': {'name': name, 'area': area}, 'vis': vis, 'via_factory': r.random() < 0.5, 'ops': ops,
             'alias_objects': stream(seed, PROP, run, 'alias').random() < 0.15}
+    rec.update(common.knobs(PROP, seed, run))
+    return rec
 
 
 def execute(record, ctx):
@@ -84,6 +87,7 @@ def execute(record, ctx):
     from gym_gridverse.geometry import Orientation, Position
     from gym_gridverse.state import State
 
+    common.probe_knobs(record, ctx)
     name, area = record['obs']['name'], record['obs']['area']
     obs_f = V.mk_obs_function(name, area, record['via_factory'], record.get('vis'))
     if record.get('vis'):
